@@ -276,6 +276,9 @@ FILTERS = {
     "combo[[0,1],[0,2]]-two-bases-repeat": dict(combo=(lambda n: [[0, 1, 0, 1][:n], [0, 2, 0, 2][:n]], 1, False)),
     "combo[[0,0],[1,3]]-two-bases-repeat-mirror-excluded": dict(combo=(lambda n: [[0, 0, 0, 0][:n], [1, 3, 1, 3][:n]], 3, True)),
     "type[[hit,hit],[hold,tail]]-two-bases-mirror": dict(type=(lambda n, TY: [[TY["h"]] * n, [TY["H"], TY["T"], TY["h"], TY["h"]][:n]], 2, False)),
+    "type[hit,hold,tail]-any-order": dict(type=(lambda n, TY: [[TY["h"], TY["H"], TY["T"], TY["h"]][:n]], 1, False)),
+    "type[hit,hold,tail]-any-order-excluded": dict(type=(lambda n, TY: [[TY["H"], TY["h"], TY["T"], TY["T"]][:n]], 1, True)),
+    "type[a,a,b,b]-any-order": dict(type=(lambda n, TY: [[TY["h"], TY["h"], TY["H"], TY["H"]][:n]], 1, False)),
     "all-three": dict(chord=(lambda n: [[2, 1, 1, 1][:n]], 3, False), combo=(lambda n: [[0] * n], 1, True),
                       type=(lambda n, TY: [[TY["T"]] + [object] * (n - 1)], 1, True)),
 }
